@@ -36,6 +36,8 @@ func main() {
 		os.Exit(cmdReplay(os.Args[2:]))
 	case "list":
 		os.Exit(cmdList(os.Args[2:]))
+	case "lockset":
+		os.Exit(cmdLockset(os.Args[2:]))
 	case "selftest":
 		os.Exit(cmdSelftest(os.Args[2:]))
 	default:
@@ -117,7 +119,13 @@ func runCheck(o checkOpts) checkResult {
 		targets = []propFn{{path, key, tags}}
 	} else {
 		targets = eng.propertyFuncs(o.property)
-		if len(targets) == 0 {
+		hasLockset := false
+		for _, pc := range eng.contracts {
+			if len(pc.Locksets[o.property]) > 0 {
+				hasLockset = true
+			}
+		}
+		if len(targets) == 0 && !hasLockset {
 			fmt.Fprintf(os.Stderr, "govc: no functions registered for property %s\n", o.property)
 			return checkResult{exit: 2}
 		}
@@ -226,9 +234,22 @@ func runCheck(o checkOpts) checkResult {
 	for _, n := range order {
 		obls = append(obls, byName[n])
 	}
+	var lockTrusted []string
+	nLockTypes := 0
+	if o.property != "" {
+		lobls, ltr, nt := eng.lockObligations(o.property)
+		lockTrusted, nLockTypes = ltr, nt
+		for _, lo := range lobls {
+			if lo.Status != "discharged" {
+				lo.failing = []*Query{{Obl: lo.Name, Kind: "held", Status: "lockset", Solver: "lockset", Clause: lo.Clause, Pos: lo.Pos, Output: lo.Clause}}
+			}
+			obls = append(obls, lo)
+		}
+		sort.Slice(obls, func(i, j int) bool { return obls[i].Name < obls[j].Name })
+	}
 	res := checkResult{obls: obls}
 	rep := &report{o: o, eng: eng, fxs: fxs, obls: obls, vacuous: vacuous, genErrs: genErrs, seed: seed, sv: sv,
-		loadS: loadS, genS: genS, solveS: solveS, nq: len(queries), t0: t0}
+		loadS: loadS, genS: genS, solveS: solveS, nq: len(queries), t0: t0, lockTrusted: lockTrusted, nLockTypes: nLockTypes}
 	res.exit = rep.finish()
 	return res
 }
